@@ -220,13 +220,13 @@ Section Acc.
     In d (payload_maps outs) <-> exists c, In (OPayload c (Some d)) outs.
   Proof.
     unfold payload_maps. rewrite in_flat_map. split.
-    - intros [o [H1 H2]]. destruct o as [c [d'|]|e| |dl]; simpl in H2; try contradiction.
+    - intros [o [H1 H2]]. destruct o as [c [d'|]|e| |dl|e c0 d0]; simpl in H2; try contradiction.
       destruct H2 as [->|[]]. eauto.
     - intros [c H]. exists (OPayload c (Some d)). simpl. auto.
   Qed.
 
   Lemma msg_of_payload o p : msg_of o = MP p -> o = OPayload (complete p) (data p).
-  Proof. destruct o as [c d|e| |dl]; simpl; intros H; inversion H; subst; reflexivity. Qed.
+  Proof. destruct o as [c d|e| |dl|e c0 d0]; simpl; intros H; inversion H; subst; reflexivity. Qed.
 
   Lemma failures_nil_all_payloads l : failures_of l = [] -> forall m, In m l -> exists p, m = MP p.
   Proof.
@@ -310,7 +310,7 @@ Section Acc.
           -- intros Hall.
              assert (Hex : expected_errs outs = []).
              { unfold expected_errs. apply flat_map_nil_all. intros o Ho. specialize (Hall o Ho).
-               destruct o as [[|] [d|]|e| |dl]; simpl in *; auto; discriminate. }
+               destruct o as [[|] [d|]|e| |dl|e c0 d0]; simpl in *; auto; discriminate. }
              rewrite Hex in HPf. apply Permutation_sym, Permutation_nil in HPf.
              rewrite HPf. simpl.
              assert (Hgr : goodr r = true).
@@ -324,7 +324,7 @@ Section Acc.
         * intros H. rewrite H in HPf. apply Permutation_nil in HPf. exact HPf.
         * intros H. rewrite H in HPf. apply Permutation_sym in HPf. apply Permutation_nil in HPf. exact HPf.
     - split; [|split; [|split]].
-      + intros _ o Ho. destruct o as [c d|e| |dl]; auto.
+      + intros _ o Ho. destruct o as [c d|e| |dl|e c0 d0]; auto.
         assert (H : In (MP {| data := d; complete := c |}) arrivals) by (apply Hin; eexists; split; eauto).
         apply in_payloads in H. rewrite Hc in H. contradiction.
       + intros x Hx. discriminate.
